@@ -226,13 +226,22 @@ def run_real(cls, ops, observer=None):
         return c
     ex = realcode.executor_for(cls)
     outs = []
+    kept = {}       # reuse mode: the caller keeps the Cell object it asked with (whatever its spelling) and asks with the very same object again
+
+    def QCell(title, column, row, value=None):
+        if not reuse or all(type(x) is int for x in (title, column, row)):
+            return Cell(title, column, row, value)
+        key = (title, column, row)
+        if key not in kept:
+            kept[key] = RealCell(title, column, row)
+        return kept[key]
     for i, op in enumerate(ops):
         try:
             if op[0] == 'set':
                 ex.set_cells([mk_cell(Cell, t, st, v) for t, v, st in op[1]])
                 outs.append('-')
             elif op[0] == 'get':
-                outs.append(core.enc(ex.get_cell(mk_cell(Cell, op[1], op[2])).value))
+                outs.append(core.enc(ex.get_cell(mk_cell(QCell, op[1], op[2])).value))
             elif op[0] == 'gets':
                 cells = ex.get_cells([mk_cell(Cell, t, st) for t, st in op[1]])
                 outs.append('V%d ' % len(cells) + ' '.join(core.enc(c.value) for c in cells))
